@@ -411,3 +411,425 @@ Proof.
   unfold Qdiv. apply Qmult_le_0_compat; [apply eval_prod_nonneg; exact Hf|].
   apply Qinv_le_0_compat. exact Hp.
 Qed.
+
+(* ====================================================================== *)
+(* function and manual loaders *)
+Theorem function_loader_spec eps fp bounds :
+  (0 <= eps)%Q -> LawSpec eps (in_closed_box bounds) fp (function_loader fp bounds).
+Proof.
+  intros He. unfold LawSpec, function_loader. rewrite map_map. cbn [fst]. rewrite map_id.
+  split; [apply box_closed_NoDup|]. split; [intros k; apply box_closed_In|].
+  rewrite Forall_forall. intros [k v] H. apply in_map_iff in H. destruct H as (k' & E & _).
+  injection E as -> <-. cbn [fst snd]. apply Close_exact. exact He.
+Qed.
+
+Lemma function_loader_keys fp bounds : map fst (function_loader fp bounds) = box (map closed bounds).
+Proof. unfold function_loader. rewrite map_map. cbn [fst]. apply map_id. Qed.
+
+Lemma function_loader_value fp bounds k v : In (k, v) (function_loader fp bounds) -> v = fp k.
+Proof.
+  unfold function_loader. intros H. apply in_map_iff in H. destruct H as (k' & E & _).
+  injection E as -> <-. reflexivity.
+Qed.
+
+Lemma flookup_In d k v : NoDup (map fst d) -> In (k, v) d -> flookup d k = v.
+Proof.
+  induction d as [|[k' v'] d IH]; intros ND H; [contradiction|]. cbn [map fst] in ND.
+  inversion ND as [|? ? Hk ND']; subst. cbn [flookup]. destruct H as [E|H].
+  - injection E as -> ->. rewrite key_eqb_refl. reflexivity.
+  - destruct (key_eqb k k') eqn:E; [|apply IH; assumption].
+    apply key_eqb_eq in E. subst k'. exfalso. apply Hk. apply (in_map fst) in H. exact H.
+Qed.
+
+Theorem manual_spec eps d :
+  (0 <= eps)%Q -> NoDup (map fst d) -> LawSpec eps (fun k => In k (map fst d)) (flookup d) d.
+Proof.
+  intros He ND. unfold LawSpec. split; [exact ND|]. split; [tauto|].
+  rewrite Forall_forall. intros [k v] H. cbn [fst snd]. rewrite (flookup_In d k v ND H).
+  apply Close_exact. exact He.
+Qed.
+
+(* ====================================================================== *)
+(* marginal loader, sampling mode *)
+Definition expected_calls (fs : list (Z -> Q)) (bounds : list (Z * Z)) (n : nat) : list call :=
+  map (fun fb => (closed (snd fb), map (fst fb) (closed (snd fb)), n)) (combine fs bounds).
+
+Lemma sampling_calls_ok fs bounds n cs :
+  sampling_calls fs bounds n = Ok cs -> length bounds <= length fs /\ cs = expected_calls fs bounds n.
+Proof.
+  revert fs cs. induction bounds as [|b bs IH]; intros fs cs E.
+  - assert (E0 : cs = []) by (destruct fs; cbn in E; injection E as <-; reflexivity). subst cs.
+    split; [cbn; lia|]. unfold expected_calls. destruct fs; reflexivity.
+  - destruct fs as [|f fs]; [discriminate|]. cbn [sampling_calls] in E. destruct (sampling_calls fs bs n) as [cs'|e] eqn:E'; [|discriminate].
+    injection E as <-. destruct (IH fs cs' E') as [Hl ->]. split; [cbn; lia|reflexivity].
+Qed.
+
+Lemma sampling_calls_err fs bounds n e :
+  sampling_calls fs bounds n = Err e -> e = E_Index /\ length fs < length bounds.
+Proof.
+  revert fs. induction bounds as [|b bs IH]; intros fs E; [destruct fs; discriminate|].
+  destruct fs as [|f fs]; [injection E as <-; split; [reflexivity|cbn; lia]|]. cbn [sampling_calls] in E.
+  destruct (sampling_calls fs bs n) as [cs'|e'] eqn:E'; [discriminate|]. injection E as <-.
+  destruct (IH fs E') as [-> Hl]. split; [reflexivity|cbn; lia].
+Qed.
+
+Definition cols_of (cs : list call) (draws : list (list nat)) : list (list Z) :=
+  map (fun cd => picks (fst (fst (fst cd))) (snd cd)) (combine cs draws).
+
+(* one list of n valid indices per dimension *)
+Definition DrawsOk (bounds : list (Z * Z)) (n : nat) (draws : list (list nat)) : Prop :=
+  Forall2 (fun idxs b => length idxs = n /\ Forall (fun i => i < length (closed b)) idxs) draws bounds.
+
+Lemma picks_nth pop idxs r : r < length idxs -> nth r (picks pop idxs) 0%Z = nth (nth r idxs 0) pop 0%Z.
+Proof.
+  intros H. unfold picks. rewrite (nth_indep _ 0%Z ((fun i => nth i pop 0%Z) 0)) by (rewrite map_length; exact H).
+  apply (map_nth (fun i => nth i pop 0%Z)).
+Qed.
+
+Lemma cols_in_ranges fs bounds n draws :
+  length bounds <= length fs -> DrawsOk bounds n draws ->
+  Forall2 (fun col b => forall r, r < n -> In (nth r col 0%Z) (closed b))
+          (cols_of (expected_calls fs bounds n) draws) bounds.
+Proof.
+  intros Hl HD. revert fs Hl. induction HD as [|idxs b draws bounds [Hlen Hidx] _ IH]; intros fs Hl.
+  - unfold expected_calls, cols_of. destruct fs; cbn; constructor.
+  - destruct fs as [|f fs]; [cbn in Hl; lia|]. unfold expected_calls, cols_of. cbn [combine map fst snd].
+    constructor.
+    + intros r Hr. rewrite picks_nth by lia. apply nth_In. rewrite Forall_forall in Hidx.
+      apply Hidx. apply nth_In. lia.
+    + apply IH. cbn in Hl. lia.
+Qed.
+
+Lemma stack_rows_In cols n k : In k (stack_rows cols n) <-> exists r, r < n /\ k = map (fun c => nth r c 0%Z) cols.
+Proof.
+  unfold stack_rows. rewrite in_map_iff. split.
+  - intros (r & <- & Hr). apply in_seq in Hr. exists r. split; [lia|reflexivity].
+  - intros (r & Hr & ->). exists r. split; [reflexivity|apply in_seq; lia].
+Qed.
+
+Lemma Forall2_map_l {A B C} (P : C -> B -> Prop) (g : A -> C) a b :
+  Forall2 P (map g a) b <-> Forall2 (fun x y => P (g x) y) a b.
+Proof.
+  revert b. induction a as [|x a IH]; intros b; cbn [map].
+  - split; intros H; inversion H; constructor.
+  - split; intros H; inversion H; subst; constructor; auto; apply IH; auto.
+Qed.
+
+Theorem marginal_sampling_ok fs bounds n draws cs d :
+  marginal_sampling fs bounds n draws = Ok (cs, d) ->
+  bounds <> [] /\ length bounds <= length fs /\ cs = expected_calls fs bounds n /\
+  d = empirical (stack_rows (cols_of cs draws) n).
+Proof.
+  unfold marginal_sampling. destruct (sampling_calls fs bounds n) as [cs'|e] eqn:E; [|discriminate].
+  destruct (sampling_calls_ok _ _ _ _ E) as [Hl ->]. destruct bounds as [|b bs]; [discriminate|].
+  intros H. injection H as <- <-. repeat split; auto. discriminate.
+Qed.
+
+Theorem marginal_sampling_err fs bounds n draws e :
+  marginal_sampling fs bounds n draws = Err e ->
+  (e = E_Index /\ length fs < length bounds) \/ (e = E_Value /\ bounds = []).
+Proof.
+  unfold marginal_sampling. destruct (sampling_calls fs bounds n) as [cs'|e'] eqn:E.
+  - destruct bounds; [|discriminate]. intros H. injection H as <-. right. split; reflexivity.
+  - intros H. injection H as <-. left. apply (sampling_calls_err _ _ _ _ E).
+Qed.
+
+(* sampling mode: the result is the empirical law of the column-stacked answers; its support lies in the
+   CLOSED box; it sums to one *)
+Theorem marginal_sampling_support fs bounds n draws cs d :
+  marginal_sampling fs bounds n draws = Ok (cs, d) -> DrawsOk bounds n draws ->
+  forall k, In k (map fst d) -> in_closed_box bounds k.
+Proof.
+  intros E HD k Hk. destruct (marginal_sampling_ok _ _ _ _ _ _ E) as (_ & Hl & -> & ->).
+  rewrite empirical_keys in Hk. apply (proj1 (first_occ_In _ _)) in Hk. apply (proj1 (stack_rows_In _ _ _)) in Hk.
+  destruct Hk as (r & Hr & ->). unfold in_closed_box. apply Forall2_map_l.
+  pose proof (cols_in_ranges fs bounds n draws Hl HD) as F.
+  eapply Forall2_impl; [|exact F]. intros col b H. cbn. specialize (H r Hr).
+  unfold closed in H. apply zrange_In in H. lia.
+Qed.
+
+Theorem marginal_sampling_sum fs bounds n draws cs d :
+  marginal_sampling fs bounds n draws = Ok (cs, d) -> 0 < n -> (qsum (map snd d) == 1)%Q.
+Proof.
+  intros E Hn. destruct (marginal_sampling_ok _ _ _ _ _ _ E) as (_ & _ & _ & ->).
+  apply empirical_sum. unfold stack_rows. destruct n; [lia|]. cbn. discriminate.
+Qed.
+
+(* ====================================================================== *)
+(* both construction paths *)
+Definition res_dist (r : res (list (list call) * dist)) : res dist :=
+  match r with Ok (_, d) => Ok d | Err e => Err e end.
+
+Definition deterministic (l : loader) : Prop :=
+  match l with LMargSampling _ _ _ => False | _ => True end.
+
+Theorem dispatch_eq_construct l rounds rounds' :
+  deterministic l -> res_dist (dispatch l rounds) = res_dist (construct l rounds').
+Proof.
+  intros D. destruct l; try contradiction; unfold dispatch, construct; cbn [create res_dist]; try reflexivity.
+  destruct (marginal_direct fs bounds); reflexivity.
+Qed.
+
+(* sampling: the dispatcher's result is what a direct construction gives for the answers of its SECOND round *)
+Theorem dispatch_sampling fs bounds n rounds rounds' :
+  nth 1 rounds [] = nth 0 rounds' [] ->
+  res_dist (dispatch (LMargSampling fs bounds n) rounds) = res_dist (construct (LMargSampling fs bounds n) rounds').
+Proof.
+  intros E. unfold dispatch, construct. cbn [create]. rewrite E. unfold marginal_sampling.
+  destruct (sampling_calls fs bounds n) as [cs|e]; [|reflexivity]. destruct bounds; reflexivity.
+Qed.
+
+(* ====================================================================== *)
+(* the Prop-level specification of every loader and the equivalence with the checker *)
+Definition CallEq (a b : call) : Prop :=
+  fst (fst a) = fst (fst b) /\ Forall2 Qeq (snd (fst a)) (snd (fst b)) /\ snd a = snd b.
+
+Lemma call_eqb_iff a b : call_eqb a b = true <-> CallEq a b.
+Proof.
+  unfold call_eqb, CallEq. split.
+  - intros H. apply andb_true_iff in H. destruct H as [H D]. apply andb_true_iff in H. destruct H as [H C].
+    apply andb_true_iff in H. destruct H as [A B]. split; [apply key_eqb_eq; exact A|]. split.
+    + apply (list_eqb_rel Qeq_bool Qeq Qeq_bool_iff). rewrite B, C. reflexivity.
+    + apply Nat.eqb_eq. exact D.
+  - intros (A & B & D). apply (list_eqb_rel Qeq_bool Qeq Qeq_bool_iff) in B. apply andb_true_iff in B.
+    destruct B as [B C]. rewrite (proj2 (key_eqb_eq _ _) A), B, C, (proj2 (Nat.eqb_eq _ _) D). reflexivity.
+Qed.
+
+Lemma calls_eqb_iff a b : calls_eqb a b = true <-> Forall2 CallEq a b.
+Proof. unfold calls_eqb. apply (list_eqb_rel call_eqb CallEq call_eqb_iff). Qed.
+
+Definition RoundOk (cs : list call) (n : nat) (ds : list (list nat)) : Prop :=
+  length ds = length cs /\
+  Forall (fun cd => length (snd cd) = n /\ Forall (fun i => i < length (fst (fst (fst cd)))) (snd cd))
+         (combine cs ds).
+
+Definition NonNeg (obs : dist) : Prop := Forall (fun kv => 0 <= snd kv)%Q obs.
+
+Lemma nonneg_vals_iff obs : nonneg_vals obs = true <-> NonNeg obs.
+Proof.
+  unfold nonneg_vals, NonNeg. rewrite forallb_Forall. apply Forall_iff. intros kv. apply Qle_bool_iff.
+Qed.
+
+(* sampling mode: every logged round asked choices(closed range_i, [f_i(k)], k = n) for every dimension, the
+   answers are valid indices, and the exposed map is the empirical law of the column-stacked answers of the
+   last round *)
+Definition SamplingSpec (fs : list (Z -> Q)) (bounds : list (Z * Z)) (n : nat)
+           (logged : list (list call)) (rounds : list (list (list nat))) (obs : dist) : Prop :=
+  exists cs, sampling_calls fs bounds n = Ok cs /\
+    bounds <> [] /\ logged <> [] /\ length logged = length rounds /\
+    Forall (fun lg => Forall2 CallEq cs lg) logged /\
+    Forall (RoundOk cs n) rounds /\
+    let rows := stack_rows (cols_of cs (last rounds [])) n in
+    LawSpec tol (fun k => In k rows) (fun k => qfrac (count_key k rows) n) obs.
+
+Lemma length_zero_iff {A} (l : list A) : negb (Nat.eqb (length l) 0) = true <-> l <> [].
+Proof. destruct l; cbn; split; congruence. Qed.
+
+Lemma sampling_check_iff fs bounds n logged rounds obs :
+  sampling_check fs bounds n logged rounds obs = true <-> SamplingSpec fs bounds n logged rounds obs.
+Proof.
+  unfold sampling_check, SamplingSpec. destruct (sampling_calls fs bounds n) as [cs|e].
+  - rewrite !andb_true_iff, !length_zero_iff, Nat.eqb_eq, !forallb_Forall.
+    rewrite (law_check_iff tol _ (fun k => In k (stack_rows (cols_of cs (last rounds [])) n)))
+      by (intros k; apply first_occ_In).
+    assert (A : Forall (fun x => calls_eqb cs x = true) logged <-> Forall (fun lg => Forall2 CallEq cs lg) logged).
+    { apply Forall_iff. intros lg. apply calls_eqb_iff. }
+    assert (B : Forall (fun x => (length x =? length cs) &&
+                   forallb (fun cd => (length (snd cd) =? n) &&
+                              forallb (fun i => i <? length (fst (fst (fst cd)))) (snd cd)) (combine cs x) = true) rounds
+                <-> Forall (RoundOk cs n) rounds).
+    { apply Forall_iff. intros ds. unfold RoundOk. rewrite andb_true_iff, Nat.eqb_eq, forallb_Forall.
+      apply and_iff_both; [tauto|]. apply Forall_iff. intros cd.
+      rewrite andb_true_iff, Nat.eqb_eq, forallb_Forall. apply and_iff_both; [tauto|].
+      apply Forall_iff. intros i. apply Nat.ltb_lt. }
+    unfold cols_of. rewrite A, B. split.
+    + intros H. exists cs. tauto.
+    + intros (cs' & E & H). injection E as <-. tauto.
+  - split; [discriminate|]. intros (cs & E & _). discriminate.
+Qed.
+
+Definition LoaderSpec (l : loader) (logged : list (list call)) (rounds : list (list (list nat)))
+           (obs : dist) : Prop :=
+  match l with
+  | LManual d => LawSpec 0 (fun k => In k (map fst d)) (flookup d) obs
+  | LEmpirical jds =>
+      LawSpec tol (fun k => In k jds) (fun k => qfrac (count_key k jds) (length jds)) obs /\ NonNeg obs
+  | LMargDirect fs b => LawSpec tol (in_half_box b) (marginal_law fs (map half_open b)) obs
+  | LMargSampling fs b n => SamplingSpec fs b n logged rounds obs /\ NonNeg obs
+  | LFunction fp b => LawSpec 0 (in_closed_box b) fp obs
+  end.
+
+Theorem loader_check_iff l logged rounds obs :
+  loader_check l logged rounds obs = true <-> LoaderSpec l logged rounds obs.
+Proof.
+  destruct l; cbn [loader_check LoaderSpec].
+  - apply law_check_iff. tauto.
+  - rewrite andb_true_iff, nonneg_vals_iff. apply and_iff_both; [|tauto].
+    apply law_check_iff. intros k. apply first_occ_In.
+  - apply law_check_iff. intros k. apply box_half_In.
+  - rewrite andb_true_iff, nonneg_vals_iff, sampling_check_iff. tauto.
+  - apply law_check_iff. intros k. apply box_closed_In.
+Qed.
+
+Lemma stack_rows_length cols n : length (stack_rows cols n) = n.
+Proof. unfold stack_rows. rewrite map_length, seq_length. reflexivity. Qed.
+
+Lemma tol_nonneg : (0 <= tol)%Q.
+Proof. unfold tol. discriminate. Qed.
+
+Lemma CallEq_refl c : CallEq c c.
+Proof. unfold CallEq. repeat split. induction (snd (fst c)); constructor; [reflexivity|assumption]. Qed.
+
+Lemma Forall2_CallEq_refl cs : Forall2 CallEq cs cs.
+Proof. induction cs; constructor; [apply CallEq_refl|assumption]. Qed.
+
+(* the model's output satisfies the specification: direct construction ... *)
+Theorem construct_satisfies_spec l ds cs d :
+  construct l [ds] = Ok (cs, d) ->
+  match l with
+  | LManual d0 => NoDup (map fst d0)
+  | LMargSampling fs b n => RoundOk (expected_calls fs b n) n ds
+  | _ => True
+  end ->
+  LoaderSpec l cs [ds] d.
+Proof.
+  unfold construct. cbn [nth]. destruct l; cbn [create LoaderSpec].
+  - intros E ND. injection E as <- <-. apply manual_spec; [apply Qle_refl|exact ND].
+  - intros E _. injection E as <- <-. split; [apply empirical_spec, tol_nonneg|apply empirical_nonneg].
+  - destruct (marginal_direct fs bounds) as [d0|e] eqn:EM; [|discriminate]. intros E _. injection E as <- <-.
+    apply marginal_direct_spec; [apply tol_nonneg|exact EM].
+  - destruct (marginal_sampling fs bounds n ds) as [[cs0 d0]|e] eqn:EM; [|discriminate].
+    intros E RO. injection E as <- <-. destruct (marginal_sampling_ok _ _ _ _ _ _ EM) as (Hne & Hl & -> & ->).
+    split; [|apply empirical_nonneg]. exists (expected_calls fs bounds n).
+    assert (SC : sampling_calls fs bounds n = Ok (expected_calls fs bounds n)).
+    { unfold marginal_sampling in EM. destruct (sampling_calls fs bounds n) as [c|e] eqn:ES; [|discriminate].
+      destruct (sampling_calls_ok _ _ _ _ ES) as [_ ->]. reflexivity. }
+    split; [exact SC|]. split; [exact Hne|]. split; [discriminate|]. split; [reflexivity|].
+    split; [constructor; [apply Forall2_CallEq_refl|constructor]|].
+    split; [constructor; [exact RO|constructor]|].
+    cbn [last]. pose proof (empirical_spec tol (stack_rows (cols_of (expected_calls fs bounds n) ds) n) tol_nonneg) as H.
+    rewrite stack_rows_length in H. exact H.
+  - intros E _. injection E as <- <-. apply function_loader_spec. apply Qle_refl.
+Qed.
+
+(* ... and the dispatcher path (constructor + second create_jdd) *)
+Theorem dispatch_satisfies_spec l ds0 ds1 cs d :
+  dispatch l [ds0; ds1] = Ok (cs, d) ->
+  match l with
+  | LManual d0 => NoDup (map fst d0)
+  | LMargSampling fs b n => RoundOk (expected_calls fs b n) n ds0 /\ RoundOk (expected_calls fs b n) n ds1
+  | _ => True
+  end ->
+  LoaderSpec l cs [ds0; ds1] d.
+Proof.
+  unfold dispatch. cbn [nth]. destruct l; cbn [create LoaderSpec].
+  - intros E ND. injection E as <- <-. apply manual_spec; [apply Qle_refl|exact ND].
+  - intros E _. injection E as <- <-. split; [apply empirical_spec, tol_nonneg|apply empirical_nonneg].
+  - destruct (marginal_direct fs bounds) as [d0|e] eqn:EM; [|discriminate]. intros E _. injection E as <- <-.
+    apply marginal_direct_spec; [apply tol_nonneg|exact EM].
+  - destruct (marginal_sampling fs bounds n ds0) as [[cs0 d0]|e] eqn:EM0; [|discriminate].
+    destruct (marginal_sampling fs bounds n ds1) as [[cs1 d1]|e] eqn:EM1; [|discriminate].
+    intros E [RO0 RO1]. injection E as <- <-.
+    destruct (marginal_sampling_ok _ _ _ _ _ _ EM0) as (Hne & Hl & -> & _).
+    destruct (marginal_sampling_ok _ _ _ _ _ _ EM1) as (_ & _ & -> & ->).
+    split; [|apply empirical_nonneg]. exists (expected_calls fs bounds n).
+    assert (SC : sampling_calls fs bounds n = Ok (expected_calls fs bounds n)).
+    { unfold marginal_sampling in EM0. destruct (sampling_calls fs bounds n) as [c|e] eqn:ES; [|discriminate].
+      destruct (sampling_calls_ok _ _ _ _ ES) as [_ ->]. reflexivity. }
+    split; [exact SC|]. split; [exact Hne|]. split; [discriminate|]. split; [reflexivity|].
+    split; [constructor; [apply Forall2_CallEq_refl|constructor; [apply Forall2_CallEq_refl|constructor]]|].
+    split; [constructor; [exact RO0|constructor; [exact RO1|constructor]]|].
+    cbn [last]. pose proof (empirical_spec tol (stack_rows (cols_of (expected_calls fs bounds n) ds1) n) tol_nonneg) as H.
+    rewrite stack_rows_length in H. exact H.
+  - intros E _. injection E as <- <-. apply function_loader_spec. apply Qle_refl.
+Qed.
+
+(* consequences of the law specification used in Props/C06.v *)
+Lemma LawSpec_exact_value Sup law obs k v :
+  LawSpec 0 Sup law obs -> In (k, v) obs -> (v == law k)%Q.
+Proof.
+  intros (_ & _ & F) H. rewrite Forall_forall in F. specialize (F (k, v) H). cbn [fst snd] in F.
+  apply Close_zero. exact F.
+Qed.
+
+(* ====================================================================== *)
+(* packaged statements for Props/C06.v *)
+Lemma c06_manual d ds : create (LManual d) ds = Ok ([], d).
+Proof. reflexivity. Qed.
+
+Lemma c06_empirical jds :
+  create (LEmpirical jds) [] = Ok ([], empirical jds) /\
+  NoDup (map fst (empirical jds)) /\
+  (forall k, In k (map fst (empirical jds)) <-> In k jds) /\
+  (forall k v, In (k, v) (empirical jds) -> v = qfrac (count_key k jds) (length jds) /\ (0 <= v)%Q) /\
+  (jds <> [] -> (qsum (map snd (empirical jds)) == 1)%Q).
+Proof.
+  split; [reflexivity|]. rewrite empirical_keys. split; [apply first_occ_NoDup|].
+  split; [intros k; apply first_occ_In|]. split; [|apply empirical_sum].
+  intros k v H. destruct (empirical_value jds k v H) as [-> _]. split; [reflexivity|apply qfrac_nonneg].
+Qed.
+
+Lemma c06_marginal_direct fs bounds d :
+  marginal_direct fs bounds = Ok d ->
+  NoDup (map fst d) /\
+  (forall k, In k (map fst d) <-> in_half_box bounds k) /\
+  (forall k v, In (k, v) d ->
+     (v == eval_prod fs k / qprod (marg_sums fs (map half_open bounds)))%Q) /\
+  (d <> [] -> (qsum (map snd d) == 1)%Q) /\
+  ((forall f x, In f fs -> 0 <= f x)%Q -> Forall (fun kv => 0 <= snd kv)%Q d).
+Proof.
+  intros E. destruct (marginal_direct_ok fs bounds d E) as (K & _ & V & S).
+  rewrite K. split; [apply box_half_NoDup|]. split; [intros k; apply box_half_In|].
+  split; [exact V|]. split; [exact S|]. intros Hf. eapply marginal_direct_nonneg; eauto.
+Qed.
+
+Lemma c06_marginal_sampling fs bounds n draws cs d :
+  marginal_sampling fs bounds n draws = Ok (cs, d) ->
+  cs = expected_calls fs bounds n /\
+  d = empirical (stack_rows (cols_of cs draws) n) /\
+  (DrawsOk bounds n draws -> forall k, In k (map fst d) -> in_closed_box bounds k) /\
+  (0 < n -> (qsum (map snd d) == 1)%Q).
+Proof.
+  intros E. destruct (marginal_sampling_ok _ _ _ _ _ _ E) as (_ & _ & H1 & H2).
+  split; [exact H1|]. split; [exact H2|]. split.
+  - intros HD. eapply marginal_sampling_support; eauto.
+  - eapply marginal_sampling_sum; eauto.
+Qed.
+
+Lemma c06_function fp bounds :
+  create (LFunction fp bounds) [] = Ok ([], function_loader fp bounds) /\
+  NoDup (map fst (function_loader fp bounds)) /\
+  (forall k, In k (map fst (function_loader fp bounds)) <-> in_closed_box bounds k) /\
+  (forall k v, In (k, v) (function_loader fp bounds) -> v = fp k).
+Proof.
+  split; [reflexivity|]. rewrite function_loader_keys. split; [apply box_closed_NoDup|].
+  split; [intros k; apply box_closed_In|]. apply function_loader_value.
+Qed.
+
+(* ---------- the full sampling-limit statement (NOT proved; kept visible as C06_full) ---------- *)
+Fixpoint all_idx_lists (m n : nat) : list (list nat) :=
+  match n with
+  | O => [[]]
+  | S n' => flat_map (fun i => map (cons i) (all_idx_lists m n')) (seq 0 m)
+  end.
+
+Fixpoint all_draws (cs : list call) (n : nat) : list (list (list nat)) :=
+  match cs with
+  | [] => [[]]
+  | c :: cs' => flat_map (fun ix => map (cons ix) (all_draws cs' n)) (all_idx_lists (length (fst (fst c))) n)
+  end.
+
+(* probability of one answer sequence under independent draws following the weights (the trusted law of
+   random.choices, C05) *)
+Definition dim_prob (c : call) (idxs : list nat) : Q :=
+  qprod (map (fun i => nth i (snd (fst c)) 0 / qsum (snd (fst c)))%Q idxs).
+Definition draws_prob (cs : list call) (draws : list (list nat)) : Q :=
+  qprod (map (fun cd => dim_prob (fst cd) (snd cd)) (combine cs draws)).
+
+Definition sampling_deviates (fs : list (Z -> Q)) (bounds : list (Z * Z)) (n : nat) (eps : Q)
+           (draws : list (list nat)) : bool :=
+  match marginal_sampling fs bounds n draws with
+  | Ok (_, d) => existsb (fun k => negb (Qle_bool (Qabs (flookup d k - marginal_law fs (map closed bounds) k)) eps))
+                         (box (map closed bounds))
+  | Err _ => true
+  end.
